@@ -563,7 +563,8 @@ Proof.
   - unfold exec_create_role in *. destruct (role_exists s r); cbn in *; congruence.
   - unfold exec_drop_role in *. destruct (role_exists s r); cbn in *; congruence.
   - unfold exec_grant in *. destruct (grant_object_check s privs ot obj); [|reflexivity].
-    destruct (all_roles_exist s grantees); cbn in *; congruence.
+    destruct (all_roles_exist s grantees); [|reflexivity].
+    destruct (grant_authorised s obj _); cbn in *; congruence.
   - unfold exec_revoke in *. destruct (revoke_object_check s ot obj); [reflexivity|].
     destruct (negb (all_roles_exist s grantees)); [reflexivity|].
     destruct (_ && _); [reflexivity|].
@@ -593,7 +594,8 @@ Theorem exec_grant_has : forall s privs ot obj grantees wgo s',
 Proof.
   intros s privs ot obj grantees wgo s' H r o q. unfold exec_grant in H. unfold grant_adds.
   destruct (grant_object_check s privs ot obj) as [actual|e] eqn:EC; [|inversion H].
-  destruct (all_roles_exist s grantees); [|inversion H]. inversion H; subst s'. clear H.
+  destruct (all_roles_exist s grantees); [|inversion H].
+  destruct (grant_authorised s obj (expand privs actual)); [|inversion H]. inversion H; subst s'. clear H.
   unfold has_privilege. cbn [st_grants set_grants]. rewrite has_in_app, orb_true_iff, has_in_new_grants.
   split; (intros [H|H]; [left; exact H|right]).
   - destruct H as [H1 [H2 H3]]. split; [exact H1|]. split; [exact H2|]. exists actual. tauto.
@@ -814,41 +816,225 @@ Proof.
   apply Hn in Ho. destruct o; cbn in Ho; try discriminate; contradiction.
 Qed.
 
-(** * GRANT asks for no authority: its outcome does not depend on the session role or on the security flag *)
-Theorem grant_ignores_session : forall s role sec privs ot obj grantees wgo,
-  snd (exec_grant (set_security (set_role s role) sec) privs ot obj grantees wgo) =
-  snd (exec_grant s privs ot obj grantees wgo) /\
-  forall r o q,
-    has_privilege (fst (exec_grant (set_security (set_role s role) sec) privs ot obj grantees wgo)) r o q =
-    has_privilege (fst (exec_grant s privs ot obj grantees wgo)) r o q.
+(** * GRANT needs authority (fix "grant-requires-authority") *)
+
+(** a successful GRANT under security by a non-administrator was covered, privilege by privilege, by a grant
+    option of the session role *)
+Theorem grant_success_authorised : forall s privs ot obj grantees wgo s',
+  exec_grant s privs ot obj grantees wgo = (s', ROk) ->
+  st_security s = true -> is_admin (current_role s) = false ->
+  exists actual, grant_object_check s privs ot obj = inl actual /\
+  forall p, In p (expand privs actual) ->
+    exists g, In g (st_grants s) /\ g_object g = obj /\ g_grantee g = current_role s /\ g_priv g = p /\ g_wgo g = true.
 Proof.
-  intros. unfold exec_grant.
-  assert (E1 : grant_object_check (set_security (set_role s role) sec) privs ot obj = grant_object_check s privs ot obj) by reflexivity.
-  assert (E2 : all_roles_exist (set_security (set_role s role) sec) grantees = all_roles_exist s grantees) by reflexivity.
-  rewrite E1, E2. destruct (grant_object_check s privs ot obj) as [a|e]; [|split; reflexivity].
-  destruct (all_roles_exist s grantees); [|split; reflexivity]. split; [reflexivity|].
-  intros r o q. unfold has_privilege. cbn [st_grants set_grants set_security set_role fst].
-  rewrite !has_in_app. f_equal.
-  destruct (has_privilege_in (new_grants obj a (expand privs a) grantees _ wgo) r o q) eqn:EA;
-  destruct (has_privilege_in (new_grants obj a (expand privs a) grantees (current_role s) wgo) r o q) eqn:EB; try reflexivity.
-  - apply has_in_new_grants in EA.
-    apply (proj2 (has_in_new_grants obj a (expand privs a) grantees (current_role s) wgo r o q)) in EA. congruence.
-  - apply has_in_new_grants in EB.
-    apply (proj2 (has_in_new_grants obj a (expand privs a) grantees (current_role (set_security (set_role s role) sec)) wgo r o q)) in EB.
-    congruence.
+  intros s privs ot obj grantees wgo s' H Hs Ha. unfold exec_grant in H.
+  destruct (grant_object_check s privs ot obj) as [actual|e]; [|inversion H].
+  destruct (all_roles_exist s grantees); [|inversion H].
+  destruct (grant_authorised s obj (expand privs actual)) eqn:EA; [|inversion H].
+  exists actual. split; [reflexivity|]. intros p Hp.
+  unfold grant_authorised in EA. rewrite Hs, Ha in EA. cbn [negb orb] in EA.
+  rewrite forallb_forall in EA. apply EA in Hp. unfold may_grant in Hp.
+  apply existsb_exists in Hp as [g [Hg Hm]]. apply andb_true_iff in Hm as [Hm Hw].
+  apply matches_spec in Hm as [H1 [H2 H3]]. exists g. tauto.
 Qed.
 
-(** the session of a role that holds nothing: one GRANT to itself and the check passes *)
+(** for an administrator, and while security is disabled, GRANT behaves as it did before the fix *)
+Theorem grant_same_for_admin : forall s privs ot obj grantees wgo,
+  st_security s = false \/ is_admin (current_role s) = true ->
+  exec_grant s privs ot obj grantees wgo = exec_grant_before s privs ot obj grantees wgo.
+Proof.
+  intros s privs ot obj grantees wgo H. unfold exec_grant, exec_grant_before.
+  destruct (grant_object_check s privs ot obj); [|reflexivity].
+  destruct (all_roles_exist s grantees); [|reflexivity].
+  unfold grant_authorised. destruct H as [H|H]; rewrite H; cbn; [reflexivity|].
+  rewrite orb_true_r. reflexivity.
+Qed.
+
+(** the session of a role that holds nothing: the GRANT to itself is refused now; before the fix it succeeded
+    and the check passed afterwards (former known finding grant-without-authority) *)
 Definition esc_state : state :=
   mkState [] ["R1"] ["T"] ["public"] true (Some "R1").
 
-Theorem self_grant_escalates :
+Example self_grant_refused :
   check_privilege esc_state "T" (PSelect None) = false /\
   is_admin (current_role esc_state) = false /\
-  let s' := fst (step esc_state (OGrant [PSelect None] OTable "T" ["R1"] false)) in
-  snd (step esc_state (OGrant [PSelect None] OTable "T" ["R1"] false)) = ROk /\
-  check_privilege s' "T" (PSelect None) = true.
+  step esc_state (OGrant [PSelect None] OTable "T" ["R1"] false) = (esc_state, RErr EPermissionDenied) /\
+  (let s' := fst (exec_grant_before esc_state [PSelect None] OTable "T" ["R1"] false) in
+   snd (exec_grant_before esc_state [PSelect None] OTable "T" ["R1"] false) = ROk /\
+   check_privilege s' "T" (PSelect None) = true).
 Proof. vm_compute. repeat split. Qed.
+
+(** ** no escalation: a session without grant option on an object cannot make anybody's privileges on it grow *)
+
+(** every grant of [G'] that carries the grant option is a grant of [G] *)
+Definition wgo_sub (G' G : list grant) : Prop := forall g, In g G' -> g_wgo g = true -> In g G.
+
+Lemma wgo_sub_refl : forall G, wgo_sub G G.
+Proof. intros G g H _. exact H. Qed.
+
+Lemma wgo_sub_trans : forall A B C, wgo_sub A B -> wgo_sub B C -> wgo_sub A C.
+Proof. intros A B C H1 H2 g Hg Hw. apply H2; [apply H1; assumption | exact Hw]. Qed.
+
+Lemma remove_wgo_sub : forall obj ge p gof G, wgo_sub (remove_grants obj ge p gof G) G.
+Proof.
+  intros obj ge p gof G g Hg Hw. unfold remove_grants in Hg. destruct gof.
+  - apply in_map_iff in Hg as [g0 [E Hg0]]. destruct (matches obj ge p g0).
+    + subst g. cbn in Hw. discriminate.
+    + subst g. exact Hg0.
+  - apply filter_In in Hg. tauto.
+Qed.
+
+Lemma fold_visit_wgo_sub : forall obj p gof (casc : list grant -> list string -> string -> option cstate),
+  (forall G V x st, casc G V x = Some st -> wgo_sub (fst st) G) ->
+  forall ds st0 st, fold_opt (visit_then casc obj p gof) ds st0 = Some st -> wgo_sub (fst st) (fst st0).
+Proof.
+  intros obj p gof casc IHc. induction ds as [|d ds IH]; intros st0 st H.
+  - cbn in H. inversion H. apply wgo_sub_refl.
+  - cbn [fold_opt] in H. unfold visit_then in H at 1. destruct (mem d (snd st0)).
+    + apply IH. exact H.
+    + destruct (casc (remove_grants obj d p gof (fst st0)) (d :: snd st0) d) as [st1|] eqn:E1; [|discriminate].
+      apply IHc in E1. apply IH in H.
+      eapply wgo_sub_trans; [exact H|]. eapply wgo_sub_trans; [exact E1 | apply remove_wgo_sub].
+Qed.
+
+Lemma cascade_wgo_sub : forall obj p gof fuel G V x st,
+  revoke_cascade fuel obj p gof G V x = Some st -> wgo_sub (fst st) G.
+Proof.
+  intros obj p gof. induction fuel as [|f IH]; intros G V x st H; [discriminate|].
+  cbn [revoke_cascade] in H. apply (fold_visit_wgo_sub obj p gof _ IH) in H. exact H.
+Qed.
+
+Lemma revoke_fold_wgo_sub : forall fuel obj gof casc prs G G',
+  fold_opt (revoke_one fuel obj gof casc) prs G = Some G' -> wgo_sub G' G.
+Proof.
+  intros fuel obj gof casc. induction prs as [|[ge p] prs IH]; intros G G' H.
+  - cbn in H. inversion H. apply wgo_sub_refl.
+  - destruct casc; cbn [fold_opt revoke_one] in H.
+    + apply IH in H. eapply wgo_sub_trans; [exact H | apply remove_wgo_sub].
+    + destruct (revoke_cascade fuel obj p gof (remove_grants obj ge p gof G) [ge] ge) as [st1|] eqn:E1; [|discriminate].
+      apply cascade_wgo_sub in E1. apply IH in H.
+      eapply wgo_sub_trans; [exact H|]. eapply wgo_sub_trans; [exact E1 | apply remove_wgo_sub].
+    + apply IH in H. eapply wgo_sub_trans; [exact H | apply remove_wgo_sub].
+Qed.
+
+Lemma exec_revoke_wgo_sub : forall s gof privs ot obj grantees casc,
+  wgo_sub (st_grants (fst (exec_revoke s gof privs ot obj grantees casc))) (st_grants s).
+Proof.
+  intros. unfold exec_revoke.
+  destruct (revoke_object_check s ot obj); [apply wgo_sub_refl|].
+  destruct (negb (all_roles_exist s grantees)); [apply wgo_sub_refl|].
+  destruct (_ && _); [apply wgo_sub_refl|].
+  destruct (fold_opt _ _ _) as [G'|] eqn:EF; [|apply wgo_sub_refl].
+  cbn. eapply revoke_fold_wgo_sub. exact EF.
+Qed.
+
+(** the invariant of an unprivileged session on [obj] *)
+Definition powerless (s : state) (r obj : string) : Prop :=
+  st_security s = true /\ st_role s = Some r /\ is_admin r = false /\
+  forall g, In g (st_grants s) -> g_object g = obj -> g_grantee g = r -> g_wgo g = false.
+
+Lemma powerless_may_grant : forall s r obj p, powerless s r obj -> may_grant s obj p = false.
+Proof.
+  intros s r obj p [_ [Hr [_ Hw]]]. unfold may_grant.
+  destruct (existsb _ _) eqn:E; [|reflexivity]. exfalso.
+  apply existsb_exists in E as [g [Hg E]]. apply andb_true_iff in E as [Hm Hwgo].
+  apply matches_spec in Hm as [H1 [H2 H3]].
+  unfold current_role in H2. rewrite Hr in H2.
+  rewrite (Hw g Hg H1 H2) in Hwgo. discriminate.
+Qed.
+
+Lemma revoke_session_fields : forall s gof privs ot obj grantees casc,
+  st_security (fst (exec_revoke s gof privs ot obj grantees casc)) = st_security s /\
+  st_role (fst (exec_revoke s gof privs ot obj grantees casc)) = st_role s.
+Proof.
+  intros. unfold exec_revoke.
+  destruct (revoke_object_check s ot obj); [split; reflexivity|].
+  destruct (negb (all_roles_exist s grantees)); [split; reflexivity|].
+  destruct (_ && _); [split; reflexivity|].
+  destruct (fold_opt _ _ _); split; reflexivity.
+Qed.
+
+(** one session step: the invariant is kept and nobody's privileges on [obj] grow *)
+Lemma step_powerless : forall s o r obj,
+  powerless s r obj -> session_op o = true ->
+  powerless (fst (step s o)) r obj /\
+  forall r' q, has_privilege (fst (step s o)) r' obj q = true -> has_privilege s r' obj q = true.
+Proof.
+  intros s o r obj HP Hs. pose proof HP as [Hsec [Hrole [Hadm Hw]]].
+  destruct o; cbn in Hs; try discriminate; cbn [step].
+  - unfold exec_create_role. destruct (role_exists s r0); cbn; (split; [exact HP | tauto]).
+  - unfold exec_drop_role. destruct (role_exists s r0); cbn; (split; [exact HP | tauto]).
+  - (* GRANT *)
+    unfold exec_grant.
+    destruct (grant_object_check s privs ot obj0) as [actual|e]; [|cbn; split; [exact HP | tauto]].
+    destruct (all_roles_exist s grantees); [|cbn; split; [exact HP | tauto]].
+    destruct (grant_authorised s obj0 (expand privs actual)) eqn:EA; [|cbn; split; [exact HP | tauto]].
+    unfold grant_authorised in EA. rewrite Hsec in EA. unfold current_role in EA at 1. rewrite Hrole, Hadm in EA.
+    cbn [negb orb] in EA.
+    destruct (String.eqb obj0 obj) eqn:Eo.
+    + apply String.eqb_eq in Eo. subst obj0.
+      assert (Hnil : expand privs actual = []).
+      { destruct (expand privs actual) as [|p l]; [reflexivity|]. cbn in EA.
+        rewrite (powerless_may_grant s r obj p HP) in EA. discriminate. }
+      rewrite Hnil. unfold new_grants. cbn [map].
+      assert (Hf : flat_map (fun _ : string => @nil grant) grantees = []).
+      { clear. induction grantees; [reflexivity | exact IHgrantees]. }
+      rewrite Hf, app_nil_r. cbn. split.
+      * repeat split; assumption.
+      * tauto.
+    + cbn [fst]. split.
+      * repeat split; try assumption. intros g Hg Ho Hge. cbn [st_grants set_grants] in Hg.
+        apply in_app_or in Hg as [Hg|Hg]; [apply Hw; assumption|].
+        unfold new_grants in Hg. apply in_flat_map in Hg as [ge [_ Hg]]. apply in_map_iff in Hg as [p [E _]].
+        subst g. cbn in Ho. subst obj0. rewrite String.eqb_refl in Eo. discriminate.
+      * intros r' q H. unfold has_privilege in *. cbn [st_grants set_grants] in H.
+        rewrite has_in_app in H. apply orb_true_iff in H as [H|H]; [exact H|].
+        apply has_in_new_grants in H as [H _]. subst obj0. rewrite String.eqb_refl in Eo. discriminate.
+  - (* REVOKE *)
+    pose proof (exec_revoke_wgo_sub s gof privs ot obj0 grantees casc) as HS.
+    pose proof (revoke_session_fields s gof privs ot obj0 grantees casc) as [F1 F2]. split.
+    + repeat split; try congruence. intros g Hg Ho Hge.
+      destruct (g_wgo g) eqn:E; [|reflexivity]. rewrite <- E. apply Hw; [|exact Ho|exact Hge]. apply HS; assumption.
+    + intros r' q H.
+      destruct (snd (exec_revoke s gof privs ot obj0 grantees casc)) eqn:ER.
+      * pose proof (exec_revoke_has s gof privs ot obj0 grantees casc (fst (exec_revoke s gof privs ot obj0 grantees casc))) as HH.
+        rewrite (pair_eta _ _ (exec_revoke s gof privs ot obj0 grantees casc)) in HH at 1. rewrite ER in HH.
+        apply (HH eq_refl) in H. tauto.
+      * pose proof (step_fail_unchanged s (ORevoke gof privs ot obj0 grantees casc)) as HF. cbn [step] in HF.
+        rewrite HF in H by (rewrite ER; discriminate). exact H.
+      * pose proof (step_fail_unchanged s (ORevoke gof privs ot obj0 grantees casc)) as HF. cbn [step] in HF.
+        rewrite HF in H by (rewrite ER; discriminate). exact H.
+  - cbn. split; [exact HP | tauto].
+  - destruct (table_exists s t); cbn; (split; [exact HP | tauto]).
+  - cbn. split; [exact HP | tauto].
+Qed.
+
+(** C26 no_self_escalation: whatever a non-administrator session without grant option on [obj] issues, no role
+    ends up with a privilege on [obj] it did not have before *)
+Theorem no_escalation : forall h s r obj,
+  powerless s r obj -> forallb session_op h = true ->
+  forall r' q, has_privilege (exec s h) r' obj q = true -> has_privilege s r' obj q = true.
+Proof.
+  induction h as [|o h IH]; intros s r obj HP Hs r' q H; [exact H|].
+  cbn in Hs. apply andb_true_iff in Hs as [Ho Hs]. cbn [exec] in H.
+  destruct (step_powerless s o r obj HP Ho) as [HP' Hmono].
+  apply Hmono. eapply IH; eassumption.
+Qed.
+
+Example ex_powerless : powerless esc_state "R1" "T".
+Proof. repeat split. intros g []. Qed.
+
+(** delegation still works for a role that does hold the grant option *)
+Example ex_authorised_delegation :
+  let h := [OCreateRole "R1"; OCreateRole "R2"; OGrant [PSelect None; PInsert None] OTable "T" ["R1"] true;
+            OSetSecurity true; OSetRole (Some "R1");
+            OGrant [PSelect None] OTable "T" ["R2"] false;          (* covered by R1's grant option *)
+            OGrant [PDelete] OTable "T" ["R2"] false;               (* not covered *)
+            OSetRole (Some "R2");
+            OGrant [PSelect None] OTable "T" ["R1"] false ] in      (* R2 holds SELECT without grant option *)
+  results (init_state ["T"] ["public"]) h =
+    [ROk; ROk; ROk; ROk; ROk; ROk; RErr EPermissionDenied; ROk; RErr EPermissionDenied].
+Proof. vm_compute. reflexivity. Qed.
 
 (** * CASCADE always terminates (both modes): every recursive call marks a new grantee *)
 Definition grantees_in (G : list grant) (N : list string) : Prop := forall g, In g G -> In (g_grantee g) N.
@@ -946,7 +1132,7 @@ Proof.
   - unfold exec_create_role. destruct (role_exists s r); discriminate.
   - unfold exec_drop_role. destruct (role_exists s r); discriminate.
   - unfold exec_grant. destruct (grant_object_check s privs ot obj); [|discriminate].
-    destruct (all_roles_exist s grantees); discriminate.
+    destruct (all_roles_exist s grantees); [|discriminate]. destruct (grant_authorised s obj _); discriminate.
   - apply revoke_never_crashes.
   - cbn. destruct (check_privilege s obj (kind_priv k)); discriminate.
 Qed.
